@@ -511,3 +511,97 @@ func (c *Ctx) ruleFlagRecomposition(rule string, pkgs []string, min int) {
 		}
 	}
 }
+
+// ruleDeadByteStore: an octet written into a buffer is not overwritten by a wider write before anything reads it.
+func (c *Ctx) ruleDeadByteStore(rule string, pkgs []string, min int) {
+	r := c.R
+	r.Rule(rule, "no dead octet: in the serialisers, a store buf[k] = v is not followed in the same block by a binary.PutUint16/32/64 into buf[j:] with j <= k < j+width (and nothing in between that could read the buffer): the wider write would erase the octet — a flags field lost under the top octet of a 24-bit value written with PutUint32", min)
+	widths := map[string]int64{"PutUint16": 2, "PutUint32": 4, "PutUint64": 8}
+	for _, short := range pkgs {
+		for _, fn := range c.P.FuncsIn(short) {
+			if fn.Blocks == nil {
+				continue
+			}
+			n := 0
+			for _, b := range fn.Blocks {
+				type bstore struct {
+					buf  ssa.Value
+					base ssa.Value // variable part of the offset (nil: constant offset)
+					k    int64
+					at   int
+					in   ssa.Instruction
+				}
+				var stores []bstore
+				for idx, in := range b.Instrs {
+					switch x := in.(type) {
+					case *ssa.Store:
+						if ia, ok := x.Addr.(*ssa.IndexAddr); ok && (isBytes(ia.X.Type()) || byteArrayLen(ia.X.Type()) > 0) {
+							base, k := lin(ia.Index)
+							stores = append(stores, bstore{ia.X, base, k, idx, x})
+						}
+					case *ssa.Call:
+						cal := x.Call.StaticCallee()
+						if cal == nil || len(x.Call.Args) < 2 {
+							continue
+						}
+						w := widths[cal.Name()]
+						if w == 0 || cal.Pkg == nil || cal.Pkg.Pkg.Path() != "encoding/binary" {
+							// any other call that takes a tracked buffer may read it: forget those stores
+							kept := stores[:0]
+							for _, s := range stores {
+								used := false
+								for _, a := range x.Call.Args {
+									if a == s.buf || sameSym(a, s.buf) {
+										used = true
+									}
+									if sl, ok := a.(*ssa.Slice); ok && (sl.X == s.buf || sameSym(sl.X, s.buf)) {
+										used = true
+									}
+								}
+								if !used {
+									kept = append(kept, s)
+								}
+							}
+							stores = kept
+							continue
+						}
+						// binary.ByteOrder.PutUintN(buf[j:], v): args = (receiver, slice, value)
+						var dst ssa.Value
+						for _, a := range x.Call.Args {
+							if isBytes(a.Type()) {
+								dst = a
+							}
+						}
+						if dst == nil {
+							continue
+						}
+						base, j := dst, int64(0)
+						var jbase ssa.Value
+						if sl, ok := dst.(*ssa.Slice); ok {
+							base = sl.X
+							if sl.Low != nil {
+								jbase, j = lin(sl.Low)
+							}
+						}
+						for _, s := range stores {
+							if !(s.buf == base || sameSym(s.buf, base)) {
+								continue
+							}
+							// offsets are comparable when both are constants or both are the same variable plus a constant
+							if (s.base == nil) != (jbase == nil) || (s.base != nil && !(s.base == jbase || sameSym(s.base, jbase))) {
+								continue
+							}
+							n++
+							cons := fmt.Sprintf("octet %d then %s at %d #%d", s.k, cal.Name(), j, n)
+							if j <= s.k && s.k < j+w {
+								r.Bad(rule, ir.FuncKey(fn), cons, c.P.InstrPos(x), fmt.Sprintf("buf[%d] was written at %s and is overwritten by this %d-octet write at offset %d before anything reads it: the octet never reaches the wire", s.k, c.P.InstrPos(s.in), w, j))
+							} else {
+								r.Ok(rule, ir.FuncKey(fn), cons, c.P.InstrPos(x), "disjoint")
+							}
+						}
+					}
+				}
+			}
+		}
+	}
+}
